@@ -107,6 +107,7 @@ def main(argv=None) -> int:
     tier = a.tier if a.tier in ("quick", "thorough") else "quick"
     seed = int(os.environ.get("VERIF_SEED", "0") or 0)
     t0 = time.time()
+    os.environ["VERIF_TIER"] = tier
     plan = importlib.import_module(f"checks.{pid.lower()}")
     contracts = V.load_contracts(plan.CONTRACTS)
     known = load_known()
@@ -139,15 +140,21 @@ def main(argv=None) -> int:
     trusted: set[str] = set()
     samples = []
     vacuous = []
+    nb_ob = nb_dis = 0
     for r in reports:
         for o in r["obligations"]:
-            n_ob += 1
+            if r.get("bounded"):
+                nb_ob += 1
+                nb_dis += o["status"] == "proved"
+            else:
+                n_ob += 1
+                n_dis += o["status"] == "proved"
             if o["status"] == "proved":
-                n_dis += 1
+                pass
             else:
                 undecided.append({"obligation": o["name"], "status": o["status"], "why": o.get("why", "")[:300]})
             if len(samples) < 12:
-                samples.append({"obligation": o["name"], "kind": o["kind"], "status": o["status"], "vcs": o["vcs"], "time_s": o["time_s"], "backends": o.get("backends", [])})
+                samples.append({"obligation": o["name"], "kind": o["kind"], "status": o["status"], "vcs": o["vcs"], "time_s": o["time_s"], "backends": o.get("backends", []), **({"bounded": r["bounded"]} if r.get("bounded") else {})})
         for b, n in r.get("backends", {}).items():
             backends[b] = backends.get(b, 0) + n
         solver_time += r.get("solver_time_s", 0.0)
@@ -228,7 +235,7 @@ def main(argv=None) -> int:
     wall = time.time() - t0
 
     level = plan.LEVEL
-    all_dis = n_ob > 0 and n_dis == n_ob and not crashed
+    all_dis = n_ob > 0 and n_dis == n_ob and not crashed and nb_ob == 0
     if level == "proof" and not all_dis:
         level = "other"
     ev_total = sum(b.get("evaluations", 0) for b in bounded_results)
@@ -238,8 +245,11 @@ def main(argv=None) -> int:
         "discharged": n_dis,
         "checker_cmd": f"./check {pid} --tier {tier}",
         "trusted_base": sorted(trusted | set(getattr(plan, "TRUSTED", []))),
-        "functions_under_contract": [{"function": r["function"], "status": r["status"], "source": r.get("source_file", ""), "lines": r.get("source_lines"), "paths": r.get("paths"), "vcs": r.get("vcs"), "vcs_discharged": r.get("vcs_discharged"), "inlined_callees": r.get("inlined", []), "callee_contracts_used": r.get("used_contracts", [])} for r in reports],
+        "functions_under_contract": [{"function": r["function"], "status": r["status"], "source": r.get("source_file", ""), "lines": r.get("source_lines"), "paths": r.get("paths"), "vcs": r.get("vcs"), "vcs_discharged": r.get("vcs_discharged"), "bounded": r.get("bounded"), "inlined_callees": r.get("inlined", []), "callee_contracts_used": r.get("used_contracts", [])} for r in reports],
         "assumed_contracts": assumed,
+        "bounded_symbolic_obligations": nb_ob,
+        "bounded_symbolic_discharged": nb_dis,
+        "bounded_symbolic_note": "obligations of functions verified with a stated bound on list lengths (contents fully symbolic); labelled bounded, not counted under obligations/discharged",
         "vcs_total": sum(r.get("vcs", 0) for r in reports),
         "vcs_discharged": sum(r.get("vcs_discharged", 0) for r in reports),
         "backends": backends,
@@ -250,7 +260,7 @@ def main(argv=None) -> int:
         "vacuous": vacuous,
         "samples": samples + [s for b in bounded_results for s in b.get("samples", [])[:3]],
         "explanation": getattr(plan, "EXPLANATION", ""),
-        "evaluations": max(ev_total, n_ob),
+        "evaluations": max(ev_total, n_ob + nb_ob),
         "distinct_nontrivial": max(ev_nontriv, len({s["obligation"] for s in samples}) if not ev_nontriv else ev_nontriv),
         "rule": getattr(plan, "RULE", "obligations: one per contract clause per function (aggregated over paths); bounded cases: see bounded_checks[*].bound"),
         "exhaustive": False,
@@ -270,14 +280,15 @@ def main(argv=None) -> int:
 
     for line in kf_lines:
         print(line)
-    print(f"[{pid}] tier={tier} functions={len(fn_keys)} lemmas={len(lemma_keys)} obligations={n_ob} discharged={n_dis} "
+    print(f"[{pid}] tier={tier} functions={len(fn_keys)} lemmas={len(lemma_keys)} obligations={n_ob} discharged={n_dis} bounded-symbolic={nb_dis}/{nb_ob} "
           f"undecided={len(undecided)} bounded={len(bounded_results)} evals={ev_total} wall={wall:.1f}s level={level}")
     for u in undecided[:10]:
         print("  undecided:", json.dumps(u)[:300])
     if crashed:
         for cr in crashed:
             print("CHECKER-CRASH", cr.get("function"), (cr.get("traceback") or "")[-1500:], file=sys.stderr)
-        return 3
+        if not violations:
+            return 3
     if violations:
         for ob, path, suffix in violations:
             print(f"  failed obligation: {ob} -> {path}")
